@@ -11,6 +11,7 @@ use std::io::Write;
 use std::panic::{catch_unwind, AssertUnwindSafe};
 use std::process::{Command, Stdio};
 
+pub mod midasw;
 #[cfg(feature = "c02")]
 pub mod c02;
 #[cfg(feature = "c03")]
